@@ -100,10 +100,10 @@ PROPS = {
     ),
     "C02": dict(
         modules=[P + "C02"],
-        theorems=[P + "C02." + t for t in ("refines_atomic_lock", "fresh_object_inv", "conservation", "try_refused_only_when_full", "unlock_at_most_once")]
-                 + ["Ldlm.Table.sim_obj", "Ldlm.Table.refines_obj", "Ldlm.Table.stepObj_inv"],
+        theorems=[P + "C02." + t for t in ("refines_atomic_lock", "fresh_object_inv", "conservation", "try_refused_only_when_full", "unlock_at_most_once", "unlock_exactly_once")]
+                 + ["Ldlm.Table.sim_obj", "Ldlm.Table.refines_obj", "Ldlm.Table.stepObj_inv", "Ldlm.Core.unlock_kills", "Ldlm.Core.Dead.forever"],
         streams=[CONC],
-        level_text="M1 has one action per critical section of lock.go/manager.go; every action emits the atomic-specification operations that take effect at it. Proved for EVERY schedule of any number of threads on a lock object: the emitted operations, in schedule order, are an execution of the atomic counting lock (forward simulation lifted to whole schedules) - each inside its call's interval, i.e. linearizability - under the side condition that a failing Unlock does not present a key still in the middle of being granted (a key no client has been told). Conservation (units = live keys + grants in progress <= size), 'refused only when full' and 'unlocked at most once' are proved with no hypothesis. Tied to the code by exploring all schedules up to a preemption bound (+ random) of 2-4-call programs on the instrumented real code, with a brute-force linearizability checker and capacity probes on every outcome.",
+        level_text="SEQUENTIAL (M2, every reachable state and every continuation of the history - requests, expiries, session ends, collections, restarts): after a successful Unlock of (name, key) the pair is never held again and every further Unlock with it fails (unlock_exactly_once, by the invariant 'a dead key stays dead'). M1 has one action per critical section of lock.go/manager.go; every action emits the atomic-specification operations that take effect at it. Proved for EVERY schedule of any number of threads on a lock object: the emitted operations, in schedule order, are an execution of the atomic counting lock (forward simulation lifted to whole schedules) - each inside its call's interval, i.e. linearizability - under the side condition that a failing Unlock does not present a key still in the middle of being granted (a key no client has been told). Conservation (units = live keys + grants in progress <= size), 'refused only when full' and 'unlocked at most once' are proved with no hypothesis. Tied to the code by exploring all schedules up to a preemption bound (+ random) of 2-4-call programs on the instrumented real code, with a brute-force linearizability checker and capacity probes on every outcome.",
         level_note="The refinement hypothesis AllSide excludes guessing a key before it was returned (unobservable to clients). The tie is outcome monitoring on explored schedules, not yet per-action trace validation against M1 (planned). D14/W1 (double-unlock window) was found by this check and repaired (fix: 066861c); the model has Unlock as one critical section accordingly. x/sync/semaphore is modelled (unit weights), not verified.",
         technique="Lean 4 proof (forward simulation to an atomic spec, lifted to all schedules by induction) + controlled-interleaving exploration with a linearizability monitor",
         trusted=CONC_TRUST,
@@ -122,10 +122,10 @@ PROPS = {
     "C04": dict(
         modules=[P + "C04", P + "C12"],
         theorems=[P + "C04." + t for t in ("grant_arms_lease", "no_timeout_no_lease", "lease_not_early", "lease_not_early_held", "lease_prompt", "renew_restarts",
-                                          "renew_requires_lease", "dead_key_inert", "expired_is_not_held")]
-                 + ["Ldlm.Core.advanceTo_keeps_later", "Ldlm.Core.advanceTo_prompt", "Ldlm.Props.C12.lease_units_pinned"],
+                                          "renew_requires_lease", "dead_key_inert", "expired_is_not_held", "expired_key_dead", "dead_key_stays_dead")]
+                 + ["Ldlm.Core.advanceTo_keeps_later", "Ldlm.Core.advanceTo_prompt", "Ldlm.Props.C12.lease_units_pinned", "Ldlm.Core.expiry_kills", "Ldlm.Core.Dead.step"],
         streams=[SEQ],
-        level_text="Over M2 in exact virtual time, for every state satisfying the reachability invariant: a grant with lock timeout t stores a lease with deadline exactly now + t*10^9 (unit pinned to time.Second by a regenerated fact); advancing to any instant before a deadline leaves that lease and its hold in place (no early release); after an advance no lease with a deadline at or before the new time is left (prompt expiry; fuel exhaustion is reported, never silent) and a fired lease's hold is gone; a successful Renew sets the deadline to exactly now + t*10^9 and touches nothing else; Renew without a lease fails; a dead key's Unlock/Renew fail and change nothing. Tied to the code by seqdiff with time steps to deadline-1ns / deadline / deadline+1ns, renew with different T, renew after expiry, and an arithmetic lease monitor on the implementation trace.",
+        level_text="After the lease callback of a hold its (name, key) is dead, and a dead pair stays dead for every continuation of the history: never held again, Unlock with it fails (expired_key_dead, dead_key_stays_dead). Over M2 in exact virtual time, for every state satisfying the reachability invariant: a grant with lock timeout t stores a lease with deadline exactly now + t*10^9 (unit pinned to time.Second by a regenerated fact); advancing to any instant before a deadline leaves that lease and its hold in place (no early release); after an advance no lease with a deadline at or before the new time is left (prompt expiry; fuel exhaustion is reported, never silent) and a fired lease's hold is gone; a successful Renew sets the deadline to exactly now + t*10^9 and touches nothing else; Renew without a lease fails; a dead key's Unlock/Renew fail and change nothing. Tied to the code by seqdiff with time steps to deadline-1ns / deadline / deadline+1ns, renew with different T, renew after expiry, and an arithmetic lease monitor on the implementation trace.",
         level_note="'A hold taken without a lock timeout never expires' is proved as 'no lease is stored' (no_timeout_no_lease) + prompt/early theorems about stored leases; Renew of such a hold fails (renew_requires_lease) - the code's behaviour, stated. lease_not_early_held takes the reachability invariant InvS, which holds after every history including restarts (run_invS). Trusted: Lean kernel, time.AfterFunc/Timer semantics (modelled), synctest clock, hand-written M2.",
         technique="Lean 4 proof (induction over the event loop of `advance` under the reachability invariant) + virtual-time sequential differential + arithmetic lease monitor",
         trusted=M2_TRUST,
@@ -287,7 +287,7 @@ PROPS = {
     "C14": dict(
         modules=[P + "C14"],
         theorems=[P + "C14." + t for t in ("all_conditions", "codes_roundtrip", "codes_roundtrip'", "codes_distinct", "nil_is_nil", "renew_rewrite_pinned", "error_not_true", "ok_has_no_error")],
-        streams=[STACK, SEQ],
+        streams=[STACK, SEQ, CLIENT],
         level_text="Over tables REGENERATED from the source on every run (both switch statements, the client's aliases, the proto enum): each of the six conditions maps to its own code, never Unknown, the code exists on the wire/JSON, and the Go client maps it back to an exported value aliasing the same server error - by kernel evaluation over the complete finite list. 'Error implies not locked/unlocked' and 'success implies no error' are proved for every M2 state and request. Which Go value the server returns per condition is tied by the stack stream (every condition x transport x RPC on the real binaries) and seqdiff.",
         level_note="D4 (failed Renew arrived as Unknown) was found by this check and repaired (fix: 11de5aa). Trusted: Lean kernel, facts extractor, grpc/grpc-gateway/protojson (exercised by the stack stream), hand-written M2.",
         technique="Lean 4 decide over regenerated tables + M2 case analysis + end-to-end code matrix on the real stack",
